@@ -83,7 +83,7 @@ func genModes(t *Tracer, m *Meta, tier string, seed int64) {
 	}
 	nMed, maxN := 30, 300
 	if !quick {
-		nMed, maxN = 300, 1500
+		nMed, maxN = 150, 1200
 	}
 	for i := 0; i < nMed; i++ {
 		fam := familyNames[i%len(familyNames)]
